@@ -244,7 +244,10 @@ class Codec:
                 cheksum_base = self.SOH.join(msg[:-1])
                 checksum = (sum([ord(i) for i in cheksum_base]) + 1) % 256
 
-                if not (value.isascii() and value.isdigit()) or checksum != int(value):
+                if (
+                    not (value.isascii() and value.isdigit() and len(value) == 3)
+                    or checksum != int(value)
+                ):
                     logging.warning(
                         "\tCheckSum: %s (INVALID) expecting %s" % (value, checksum)
                     )
